@@ -990,4 +990,49 @@ example :
   intro m _ im _
   exact Or.inl rfl
 
+
+/-! ### the runner's regexp on the rendered contents -/
+
+theorem AllSame.mem_right {a b : List Msg} (h : AllSame a b) : ∀ m' ∈ b, ∃ m ∈ a, SameMsg m m' := by
+  induction h with
+  | nil => intro m' hm; simp at hm
+  | @cons m m' ms ms' hm hrest ih =>
+    intro x hx
+    rcases List.mem_cons.mp hx with h | h
+    · subst h; exact ⟨m, by simp, hm⟩
+    · obtain ⟨y, hy, hs⟩ := ih x h
+      exact ⟨y, by simp [hy], hs⟩
+
+/-- **What the runner's `\[img-(\d+)\]` finds in a retained message is exactly what chatPrompt wrote**
+    (discharges, for text that is `safeText`, the link between the `tag` pieces the theorems above count and
+    the BYTES the runner scans): for every retained message the matches of the rendered content are its tag
+    pieces in order, with their numbers; and every one of them resolves to the image at that position. -/
+theorem runner_scan_is_tags (h : chatPrompt cfg cost bad msgs = .ok q n sys ret imgs)
+    (hclean : ∀ m ∈ msgs, cleanPieces m.content = true)
+    (hno : ∀ m ∈ msgs, ∀ k, countTag k m.content = 0) :
+    ∀ m' ∈ ret, scanTags (renderPieces m'.content) 0 = tagsOf m'.content ∧
+      ∀ k ∈ scanTags (renderPieces m'.content) 0, ∃ hk : k < imgs.length, resolveTag imgs k = some imgs[k] := by
+  intro m' hm'
+  obtain ⟨m, hm, hs⟩ := AllSame.mem_right (retained_is_suffix_in_order h) m' hm'
+  have hc : cleanPieces m'.content = true := by
+    rw [cleanPieces_strip, hs.text, ← cleanPieces_strip]
+    exact hclean m (List.mem_of_mem_drop hm)
+  have e := scanTags_renderPieces m'.content hc
+  refine ⟨e, ?_⟩
+  intro k hk
+  rw [e] at hk
+  apply (runner_resolves_every_tag h hno).1 k
+  simp only [tagsOf, List.mem_filterMap, List.mem_flatMap] at hk ⊢
+  obtain ⟨p, hp, hpk⟩ := hk
+  exact ⟨p, ⟨m', hm', hp⟩, hpk⟩
+
+/-- non-vacuity: `safeText` accepts ordinary text, brackets included, and rejects a literal tag or a text
+    ending in the middle of one; decimal rendering is what Go prints for the numbers that occur -/
+example :
+    -- "s[1] [img] [image-3]", "a [img-3]", "x[im"
+    safeText [115, 91, 49, 93, 32, 91, 105, 109, 103, 93, 32, 91, 105, 109, 97, 103, 101, 45, 51, 93] = true ∧
+    safeText [97, 32, 91, 105, 109, 103, 45, 51, 93] = false ∧ safeText [120, 91, 105, 109] = false ∧
+    natBytes 0 = [48] ∧ natBytes 7 = [55] ∧ natBytes 10 = [49, 48] ∧ natBytes 123 = [49, 50, 51] ∧
+    scanTags (renderPieces [.tag 12, .lit [97], .slot, .tag 0, .mm]) 0 = [12, 0] := by decide
+
 end OllamaVerif.C19
